@@ -2,6 +2,7 @@ package c08
 
 import (
 	"bytes"
+	"crypto/sha256"
 	"fmt"
 
 	"github.com/canopy-network/canopy/store"
@@ -28,13 +29,17 @@ var cacheCases = []int{0, -1, -7}
 // cacheCaseCount is the number of corpus cases of a tier (thorough adds the organic one).
 func cacheCaseCount(thorough bool) int {
 	if thorough {
-		return len(cacheCases) + 1
+		return len(cacheCases) + 2
 	}
-	return len(cacheCases)
+	return len(cacheCases) + 1 // + the digest-valued states
 }
 
 func runCacheCase(o *emitter, u *Universe, ci int) {
-	if ci >= len(cacheCases) {
+	if ci == len(cacheCases) {
+		runDigestValueCase(o, u)
+		return
+	}
+	if ci > len(cacheCases) {
 		runCacheOrganic(o)
 		return
 	}
@@ -205,6 +210,72 @@ func runCacheOrganic(o *emitter) {
 			o.Fail("C08:root-not-canonical:full-node-cache",
 				fmt.Sprintf("organic: overwrite of key %d with %d cached nodes: root %x, canonical commitment %x", i, t.smt.VerifNodeCacheLen(), got, want), steps)
 			return
+		}
+	}
+}
+
+// runDigestValueCase (permanent corpus `digest-valued-states`): a stored value may itself be 32 bytes long, e.g. a
+// digest. The leaf always commits to the HASH of the value, so the states {k: w} and {k: sha256(w)} are different states
+// with different roots, each the canonical commitment of its own set.
+//
+//	C08:root-not-canonical:digest-sized-value     root of a state holding a 32-byte value != reference
+//	C08:root-collision:value-vs-its-digest        {k: w} and {k: sha256(w)} commit to the same root
+func runDigestValueCase(o *emitter, u *Universe) {
+	h := history{N: 160}
+	defer func() {
+		if p := recover(); p != nil {
+			o.Fail("C08:panic-in-real-code", fmt.Sprintf("digest-valued-states: %v | %s", p, shortStack()), h)
+		}
+	}()
+	o.Case("corpus digest-valued-states")
+	var keys []UKey
+	for i := 0; len(keys) < 6; i++ {
+		if k := u.Keys[i]; !u.Reserved(k.Bits) && !u.Border[k.Bits] {
+			keys = append(keys, k)
+		}
+	}
+	w := []byte("an ordinary value of some length")
+	if len(w) != 32 {
+		w = append(w, make([]byte, 32)...)[:32]
+	}
+	dw := sha256.Sum256(w)
+	ddw := sha256.Sum256(dw[:])
+	var roots [][]byte
+	for _, val := range [][]byte{w, dw[:], ddw[:]} {
+		t, err := newTree(160, false)
+		if err != nil {
+			panic(err)
+		}
+		o.Op("new 160", fmt.Sprintf("root %s nodes 3 l0 same", drv.Hex(t.smt.Root())))
+		ops := []op{{k: keys[0], val: val}, {k: keys[1], val: []byte("short")}, {k: keys[2], val: dw[:]}}
+		line := opLine("seq", ops)
+		h.Steps = append(h.Steps, line)
+		o.Try(line)
+		if res := t.commit(false, ops); res != "ok" {
+			o.Op(line, res)
+			o.Fail("C08:commit-failed", "digest-valued-states: "+res, h)
+			t.close()
+			return
+		}
+		applyOracle(t.m, ops)
+		got := t.smt.Root()
+		tab, _ := t.scan()
+		want, _ := RefRoot(t.m)
+		l0 := "same"
+		if !bytes.Equal(got, want) {
+			l0 = "differs"
+			o.Fail("C08:root-not-canonical:digest-sized-value",
+				fmt.Sprintf("state with a 32-byte value %x: root %x, canonical commitment %x (the leaf must commit to the hash of the value)", val, got, want), h)
+		}
+		o.Op(line, fmt.Sprintf("root %s nodes %d l0 %s", drv.Hex(got), len(tab), l0))
+		o.Count("cache:digest-valued-state")
+		roots = append(roots, got)
+		t.close()
+	}
+	for i := 0; i+1 < len(roots); i++ {
+		if bytes.Equal(roots[i], roots[i+1]) {
+			o.Fail("C08:root-collision:value-vs-its-digest",
+				fmt.Sprintf("the states {k: w} and {k: sha256(w)} (w = %x) commit to the same root %x", w, roots[i]), h)
 		}
 	}
 }
